@@ -200,7 +200,7 @@ Lemma chunk_range_parsed cr cl st en :
   cr <> [] -> parse_range cr = Some (st, en) -> 0 <= cl ->
   chunk_range cr cl =
     let en1 := if (st =? 0) && (en =? 0) && (cl =? 1) then 1 else en in
-    if en1 - st =? cl then CROk st en1 else CRBadLength (en1 - st).
+    if wrap64 (en1 - st) =? cl then CROk st en1 else CRBadLength (wrap64 (en1 - st)).
 Proof.
   intros Hne Hp Hcl. unfold chunk_range. destruct cr as [|c r]; [congruence|].
   rewrite Hp. destruct (Z.geb_spec cl 0); [|lia]. cbn [andb negb].
@@ -219,9 +219,11 @@ Proof.
   - rewrite (chunk_range_parsed _ _ a b (range_string_nonempty a b)); [|apply parse_range_range_string; [lia|lia|congruence]|lia].
     cbn zeta. subst a.
     destruct (Z.eqb_spec b 0) as [->|Hb0]; [reflexivity|].
-    rewrite andb_false_r. cbn [andb]. rewrite Z.eqb_refl. reflexivity.
+    rewrite andb_false_r. cbn [andb]. rewrite wrap64_id by (unfold MIN64, MAX64 in *; lia).
+    rewrite Z.eqb_refl. reflexivity.
   - rewrite (chunk_range_parsed _ _ a b (range_string_nonempty a b)); [|apply parse_range_range_string; [lia|lia|congruence]|lia].
-    cbn zeta. destruct (Z.eqb_spec a 0); [lia|]. cbn [andb]. rewrite Z.eqb_refl. reflexivity.
+    cbn zeta. destruct (Z.eqb_spec a 0); [lia|]. cbn [andb].
+    rewrite wrap64_id by (unfold MIN64, MAX64 in *; lia). rewrite Z.eqb_refl. reflexivity.
 Qed.
 
 (* a header that disagrees with the Content-Length is refused (the two excluded triples
@@ -236,16 +238,19 @@ Proof.
   - subst a b. rewrite <- range_string_ambiguous.
     rewrite (chunk_range_parsed _ _ 0 0 (range_string_nonempty 0 0) eq_refl Hcl). cbn zeta.
     cbn [Z.eqb andb]. destruct (Z.eqb_spec cl 1); [lia|].
-    destruct (Z.eqb_spec (0 - 0) cl) as [E0|]; [|eauto].
+    change (wrap64 (0 - 0)) with 0.
+    destruct (Z.eqb_spec 0 cl) as [E0|]; [|eauto].
     exfalso. apply Hne3. f_equal. lia.
   - rewrite (chunk_range_parsed _ _ a b (range_string_nonempty a b)); [|apply parse_range_range_string; [lia|lia|congruence]|lia].
     cbn zeta. subst a. cbn [Z.eqb andb].
     destruct (Z.eqb_spec b 0) as [->|Hb0].
     + cbn [andb]. destruct (Z.eqb_spec cl 1) as [->|]; [exfalso; now apply Hne2|].
-      destruct (Z.eqb_spec (0 - 0) cl); [lia|]. eauto.
-    + cbn [andb]. destruct (Z.eqb_spec (b - 0) cl); [lia|]. eauto.
+      change (wrap64 (0 - 0)) with 0. destruct (Z.eqb_spec 0 cl); [lia|]. eauto.
+    + cbn [andb]. rewrite wrap64_id by (unfold MIN64, MAX64 in *; lia).
+      destruct (Z.eqb_spec (b - 0) cl); [lia|]. eauto.
   - rewrite (chunk_range_parsed _ _ a b (range_string_nonempty a b)); [|apply parse_range_range_string; [lia|lia|congruence]|lia].
     cbn zeta. destruct (Z.eqb_spec a 0); [lia|]. cbn [andb].
+    rewrite wrap64_id by (unfold MIN64, MAX64 in *; lia).
     destruct (Z.eqb_spec (b - a) cl); [lia|]. eauto.
 Qed.
 
